@@ -46,6 +46,7 @@ def cfg_strategy(n_min=2, n_max=5, profiles=None, fixed=None, batch_bytes=None, 
         'fallback': st.sampled_from([0.11, 0.5, 2.0, 30.0]),
         'profile': st.sampled_from(profiles),
         'boot': st.sampled_from([True, True, True, False]),
+        'tbl': st.just(2),
     }
     if fixed:
         for k, v in fixed.items():
